@@ -22,19 +22,22 @@ def build_input():
     for i, tx in enumerate(TXS):
         g = ref.gene_of[tx]['gene_id']
         c = ref.cds_tx(tx)
+        # four small variants spread over the transcript, so that every later unit of the transcript (second
+        # fusion with a breakpoint further downstream, circRNAs over both exons) has variant peptides that depend
+        # on records lying downstream of an earlier unit's breakpoint (state shared between units shows up)
         base = (c[0] + 12) if c else 20
-        for k, p in enumerate((base, base + 31)):
+        for k, p in enumerate((base, base + 22, base + 44, base + 66)):
             al = E.small_alphabet(ref, tx, p, reduced=True)
-            small.append(al[(i + 2 * k) % len(al)].gvf())
+            small.append(al[(i + 2 * k) % 3].gvf())          # SNVs only: keep the frame for the downstream units
         units.append(('main', tx))
         ex = ref.exons_gene(tx)
         for frs in ([ex[0]], [ex[0], ex[1]]) if i != 1 else ([ex[1]],):
             cid = f'CIRC-{tx}-{frs[0][0]}:{frs[-1][1]}'
             circ.append(refgen.circ_line(g, tx, frs, cid))
             units.append(('circ', cid))
-        accs = [('ENST12', 40), ('ENST13', 55)] if i != 2 else [('ENST12', 62)]
-        for acc, q in accs:
-            dpos = ref.tx_to_gene(tx, 50 + 3 * i) + 1
+        accs = [('ENST12', 40, 33), ('ENST13', 55, 75)] if i != 2 else [('ENST12', 62, 58)]
+        for acc, q, bp in accs:
+            dpos = ref.tx_to_gene(tx, bp + 3 * i) + 1
             fid = f'FUSION-{tx}:{dpos}-{acc}:{ref.tx_to_gene(acc, q)}'
             fus.append(refgen.fusion_line(ref, tx, dpos, acc, ref.tx_to_gene(acc, q), fid))
             units.append(('fusion', fid))
